@@ -1210,6 +1210,10 @@ package p9p
 //@ loop 1 invariant gkind(d) == 1 || gkind(d) == 2
 //@ loop 1 invariant gkind(d) == 1 ==> len(vs) == len(gstr(d)) && forall(k, 0, len(vs), vs[k] == toiface(elemptr(gstr(d), k)))
 //@ loop 1 invariant gkind(d) == 2 ==> len(vs) == len(gqid(d)) && forall(k, 0, len(vs), vs[k] == toiface(elemptr(gqid(d), k)))
+//@ loop 1 invariant ghosts_fixed: gstr(d) == entry(gstr(d)) && gqid(d) == entry(gqid(d)) && gkind(d) == entry(gkind(d))
+// every name decoded so far has a 16-bit length (it was read after its own length field)
+//@ loop 1 invariant names_last: gkind(d) == 1 && $done >= 1 ==> nameLen(gstr(d), $done - 1) <= 65535
+//@ loop 1 invariant names_rep: gkind(d) == 1 ==> (forall k int :: {nameLen(gstr(d), k)} 0 <= k && (k < $done - 1 || k == $done - 1) ==> nameLen(gstr(d), k) <= 65535)
 //@ loop 1 invariant d.rd == entry(d.rd) && typeis(d.rd, *bytes.Reader)
 //@ loop 1 invariant blen(rem(d.rd)) <= blen(entry(rem(d.rd))) && dynalloc() - entry(dynalloc()) <= 2 * (blen(entry(rem(d.rd))) - blen(rem(d.rd)))
 // Round trip (contracts with a logical f whose layout is being decoded; rt_ clauses apply only there). The element
@@ -1612,13 +1616,20 @@ package p9p
 //@ func (codec9p).Unmarshal#lists
 //@ timeout 60
 //@ property C04
-//@ use wirekind bytes noassoc
+//@ use wirekind bytes noassoc wirelist pinheaps
 //@ elemptrs
 //@ dyn v : *Fcall
 //@ let T0 = dec1(btake(bytes(data), 1))
 //@ requires v.(*Fcall) != nil
 //@ requires len(data) >= 1 ==> T0 == 110 || T0 == 111
 //@ ensures proportionate: dynalloc() - old(dynalloc()) <= 24 * len(data)
+// a decoded list message is representable again (at most 65535 elements, names of at most 65535 bytes): with C01's
+// Marshal and round-trip contracts for Twalk/Rwalk this is the stability clause for the list kinds
+//@ let VL = (*v.(*Fcall))
+//@ ensures twalk_count: err == nil && typeis(VL.Message, MessageTwalk) ==> len(VL.Message.(MessageTwalk).Wnames) <= 65535
+//@ ensures twalk_names: err == nil && typeis(VL.Message, MessageTwalk) ==> (forall k int :: {nameLen(VL.Message.(MessageTwalk).Wnames, k)} 0 <= k && k < len(VL.Message.(MessageTwalk).Wnames) ==> nameLen(VL.Message.(MessageTwalk).Wnames, k) <= 65535)
+//@ ensures rwalk_representable: err == nil && typeis(VL.Message, MessageRwalk) ==> len(VL.Message.(MessageRwalk).Qids) <= 65535
+//@ ensures lists_well_typed: err == nil ==> VL.Type == kindOf(VL.Message)
 
 // Rwalk: the qid list is encoded through pointers to the slice's elements.
 //@ func (codec9p).Marshal#rwalk
